@@ -152,6 +152,8 @@ var c19Sources = []struct {
 }{
 	{"C01", "c01", 3}, {"C02", "c02", 3}, {"C07", "c07", 2}, {"C09", "c09", 2}, {"C09", "c09-all", 1}, {"C10", "c10", 2}, {"C10", "c10-idle", 1},
 	{"C12", "c12", 3}, {"C17", "c17", 3}, {"C18", "c18-server", 2}, {"C18", "c18-server-all", 1}, {"C18", "c18-client", 1}, {"C06", "c06", 2},
+	// the Client level (RoundTrip, connection list, per-request timers) and the timer-driven server paths
+	{"C11", "c11", 1}, {"C11", "c11-timed", 1}, {"C09", "c09-timeout", 1}, {"C17", "c17-idle-burst", 1},
 }
 
 func onScheduler(a raceAccess) bool {
